@@ -429,7 +429,7 @@ def run(ctx):
             for order in sorted(set(itertools.permutations(multiset))):
                 for until in UNTILS:
                     every.append((variant, order, until))
-    wanted = ctx.n(32, 480)
+    wanted = ctx.n(32, 1600)
     step = max(1, len(every) // wanted)
     picks = every[(ctx.seed * 7) % step::step][:wanted]
     picks += [("arguments", name, template) for name, template in BROKEN_ARGUMENTS[:ctx.n(2, 8)]]
